@@ -23,7 +23,7 @@ PROPS = {
                 preds=["AliasEqPrimary", "CalledExact", "UntouchedKeepDefault", "FrameOneOption (action property)"]),
     "C07": dict(families=["modes"], lens={"vals", "called", "as", "rest", "err"}, rand=("C07", 6000, 150000),
                 preds=["LongModeIndependent", "RewriteEquiv"]),
-    "C08": dict(families=["wrapper", "conserve"], lens={"err", "warn", "rest"}, rand=("C08", 6000, 150000),
+    "C08": dict(families=["wrapper", "conserve", "inherit"], lens={"err", "warn", "rest"}, rand=("C08", 6000, 150000),
                 preds=["UnknownNeverDropped"]),
     "C10": dict(families=["tree"], lens={"ran", "derr", "helpof", "rest", "writer"}, rand=("C10", 6000, 400000),
                 preds=["ExactlyOneFn", "DeepestCommand"]),
@@ -31,15 +31,15 @@ PROPS = {
                 preds=["RequiredEnforced"]),
     "C12": dict(families=["env", "valid", "setvalue"], lens={"vals", "called", "as", "seterr"}, rand=("C12", 6000, 800000),
                 preds=["EnvPrecedence", "CalledExact", "UntouchedKeepDefault"]),
-    "C17": dict(families=["complete", "complete-eq"], lens={"comps", "exits", "ran", "writer"}, rand=("C17", 6000, 800000),
+    "C17": dict(families=["complete", "complete-eq", "complete-w"], lens={"comps", "exits", "ran", "writer"}, rand=("C17", 6000, 800000),
                 preds=["CandidatesExact", "OfferedAccepted"]),
     "C18": dict(families=["helpdoc"], lens={"help", "helpcomplete", "helpof"}, rand=("C18", 2500, 400000), relational=False,
                 preds=["HelpDocComplete (evaluated on the parsed real text)", "HelpDocOf equality", "three paths same text"]),
-    "C19": dict(families=["modes", "wrapper", "complete-eq"], lens={"panic", "hang", "rest", "exits"}, fuzz=(16000, 800000), level="exploration",
+    "C19": dict(families=["modes", "wrapper", "complete-eq", "tree"], lens={"panic", "hang", "rest", "exits"}, fuzz=(16000, 800000), level="exploration",
                 preds=["NotStuck", "VariantDecreases (action property)", "ErrImpliesNilRest"]),
     "C20": dict(families=["order", "complete", "complete-eq"], lens={"nondet", "err", "derr", "comps", "warn"}, rand=[("C20", 4000, 300000), ("C20c", 2000, 200000)],
                 repeat=6, twice=True, preds=["FixedRule"]),
-    "C09": dict(families=["term", "conserve"], lens={"rest", "vals", "called"}, rand=("C09", 6000, 150000),
+    "C09": dict(families=["term", "conserve", "inherit"], lens={"rest", "vals", "called"}, rand=("C09", 6000, 150000),
                 preds=["StopRoles", "PrefixAsUnordered", "NoStopAsUnordered", "Frozen (action property)"]),
 }
 
